@@ -411,7 +411,65 @@ def rule_e(ctx: Ctx) -> None:
             ctx.ok(inst, {"split_on": sorted(seps), "hidden": sorted(hidden)})
 
 
-RULES = [rule_a, rule_b, rule_c, rule_d, rule_e]
+def rule_f(ctx: Ctx) -> None:
+    ctx.rule("C07.f", "no implicit str() of a node in generator code: an f-string of a generator method never interpolates a value whose static type is an expression class "
+                      "(str(node) renders it with a *fresh default* generator: the caller's options — comments, identify, pretty, dialect — do not reach it); "
+                      "nodes are rendered through self.sql(...)")
+    from ..typed import types
+    from ..facts import facts
+
+    T = types(ctx.repo)
+    names = set(facts(ctx.repo)["expr_classes"]) | {"Expr", "Expression"}
+
+    def is_node(ty: str | None) -> bool:
+        if not ty:
+            return False
+        parts = [p_.strip() for p_ in ty.replace("builtins.", "").split(" | ") if p_.strip() != "None"]
+        # fully qualified only: `Any` and typing's `Literal['x']` share their names with the expression classes Any and Literal
+        return bool(parts) and all(p_.startswith("sqlglot.expressions.") and p_.split(".")[-1].split("[")[0] in names for p_ in parts)
+
+    ctx.require(is_node("sqlglot.expressions.core.Literal | None") and not is_node("str") and not is_node("Any") and not is_node("Literal['NOT ']?"),
+                "internal: C07.f type classifier broken")
+    n = n_fv = 0
+    for m in _gen_modules(ctx):
+        if m.name == "sqlglot.generators.python" or not (m.name == GEN or m.name.startswith("sqlglot.generators")):
+            continue
+        for js in m.of_type(ast.JoinedStr):
+            n += 1
+            # messages (unsupported / logging / exceptions) are not SQL
+            p_ = m.parent(js)
+            msg = False
+            while p_ is not None and not isinstance(p_, ast.stmt):
+                if isinstance(p_, ast.Call) and ((call_name(p_) or "").split(".")[-1] in ("unsupported", "warning", "error", "debug", "info") or (call_name(p_) or "").endswith("Error")):
+                    msg = True
+                p_ = m.parent(p_)
+            if msg or isinstance(m.enclosing_stmt(js), ast.Raise):
+                continue
+            for v in js.values:
+                if not isinstance(v, ast.FormattedValue):
+                    continue
+                n_fv += 1
+                ty = T.of(m, v.value)
+                if ty is None and hasattr(v.value, "lineno"):
+                    # mypy reports positions inside f-strings one column to the left of ast's
+                    d_ = T.mods.get(m.name, {})
+                    e_ = v.value
+                    for dc, de in ((-1, 0), (-1, -1), (1, 1), (1, 0)):
+                        ty = d_.get(f"{e_.lineno}:{e_.col_offset + dc}:{e_.end_lineno}:{e_.end_col_offset + de}")
+                        if ty:
+                            break
+                if is_node(ty):
+                    f = m.enclosing_func(js)
+                    where = f.key if f else m.name
+                    ctx.fail(m, js, where, f"{norm(js, 60)} interpolates {norm(v.value, 30)}: {ty[:50]}",
+                             f"`{norm(v.value, 30)}` is an expression node ({ty.split('.')[-1][:30]}) formatted with str(): it is rendered by a new default Generator, so comments=False, "
+                             f"identify, normalize_functions and the target dialect are ignored for this sub-tree — use self.sql(...)")
+    ctx.ok("generators|no f-string interpolates a node", {"f_strings": n, "interpolations_typed": n_fv})
+    ctx.count("generator_f_strings", n)
+    ctx.min_instances("generator_f_strings", n, 1000)
+
+
+RULES = [rule_a, rule_b, rule_c, rule_d, rule_e, rule_f]
 EXPLANATION = (
     "Pairing and confinement rules on the generator: the sentinel's single guarded insertion/removal pair with "
     "post-domination of generate()'s returns and delegation of overrides, injectivity of the substitution, flow of "
